@@ -10,8 +10,6 @@ import ecp as RP
 import ec2 as R2
 
 PROP = 'C06'
-# development only: extra octets behind every scratch stack (0 = exactly xxx_deep octets, as the property demands)
-SLACK = int(os.environ.get('C06_STACK_SLACK', '0') or 0)
 CFGS = ('rel', 'w32')
 
 # ------------------------------------------------------------------------------------------------ context
@@ -56,12 +54,12 @@ class Ctx:
             s.size = p
             no = (p.bit_length() + 7) // 8
             s.f = A.buf(L.sz('gfpCreate_keep', no), 0)
-            st = A.buf(L.sz('gfpCreate_deep', no) + SLACK)
+            st = A.buf(L.sz('gfpCreate_deep', no))
             if not L.boolean('gfpCreate', s.f, A.buf(p.to_bytes(no, 'little')), no, st):
                 raise RuntimeError('gfpCreate failed for %x' % p)
             s._qinfo()
             s.ec = A.buf(L.sz('ecpCreateJ_keep', s.n), 0)
-            st = A.buf(L.sz('ecpCreateJ_deep', s.n, s.fdeep) + SLACK)
+            st = A.buf(L.sz('ecpCreateJ_deep', s.n, s.fdeep))
             if not L.boolean('ecpCreateJ', s.ec, s.f, A.buf(a.to_bytes(s.no, 'little')), A.buf(b.to_bytes(s.no, 'little')), st):
                 raise RuntimeError('ecpCreateJ failed')
             s.E = RP.Curve(p, a, b)
@@ -73,12 +71,12 @@ class Ctx:
             m = poly[0]
             s.size = 1 << m
             s.f = A.buf(L.sz('gf2Create_keep', m), 0)
-            st = A.buf(L.sz('gf2Create_deep', m) + SLACK)
+            st = A.buf(L.sz('gf2Create_deep', m))
             if not L.boolean('gf2Create', s.f, A.buf(struct.pack('<4Q', *poly)), st):
                 raise RuntimeError('gf2Create failed for %r' % (poly,))
             s._qinfo()
             s.ec = A.buf(L.sz('ec2CreateLD_keep', s.n), 0)
-            st = A.buf(L.sz('ec2CreateLD_deep', s.n, s.fdeep) + SLACK)
+            st = A.buf(L.sz('ec2CreateLD_deep', s.n, s.fdeep))
             if not L.boolean('ec2CreateLD', s.ec, s.f, A.buf(a.to_bytes(s.no, 'little')), A.buf(b.to_bytes(s.no, 'little')), st):
                 raise RuntimeError('ec2CreateLD failed')
             s.F = field2(poly)
@@ -90,8 +88,8 @@ class Ctx:
         v = struct.unpack('<16Q', info.get())
         assert v[0] == s.n and v[13] == s.W and v[3] == 3, v
         s.ecdeep, s.has_tpl = v[4], bool(v[5])
-        s.stack = A.buf(s.ecdeep + SLACK)          # exactly ec->deep octets for the function table
-        s.fstack = A.buf(s.fdeep + SLACK)
+        s.stack = A.buf(s.ecdeep)          # exactly ec->deep octets for the function table
+        s.fstack = A.buf(s.fdeep)
         s.ecache = {}
         s.rcache = {}
         s.reccache = {}
@@ -258,7 +256,7 @@ def run_pairs(c, op, alias, la, lb, ptsA, ptsB, exp_row, max_rec=40000):
         bufs = [T.buf(3 * n * W), T.buf(2 * n * W), T.buf(3 * n * W), T.buf(2 * n * W), T.buf(3 * n * W), T.buf(2 * n * W), T.buf(2 * n * W)]
         pb = T.buf(struct.pack('<7Q', *[b.addr for b in bufs]))
         if shape == 'aa':
-            stack = T.buf(L.sz(c.deepfn[op], n, c.fdeep) + SLACK); fn = c.fn[op]
+            stack = T.buf(L.sz(c.deepfn[op], n, c.fdeep)); fn = c.fn[op]
         elif op == 'nega':
             stack = None; fn = c.fn[op]
         else:
